@@ -271,3 +271,77 @@ func globalInModule(p *core.Program, g *ssa.Global) bool {
 	pp := g.Pkg.Pkg.Path()
 	return pp == p.ModulePath || strings.HasPrefix(pp, p.ModulePath+"/")
 }
+
+// noAnswerBeforeTheScan (PT5): a function that computes its answer by scanning its input
+// must not answer on a path that has not reached a scan: every return is dominated by a
+// loop header, or reports an error / rejection, or is guarded by a test that lets only an
+// empty input through. What it excludes is the early special case - "for inputs of
+// length 8 return the argument as it is" - which no rule about the loop body can see.
+func noAnswerBeforeTheScan(c rc, names ...string) {
+	errType := types.Universe.Lookup("error").Type()
+	for _, name := range names {
+		fn := c.p.Func(name)
+		if fn == nil || len(fn.Blocks) == 0 {
+			continue
+		}
+		var heads []*ssa.BasicBlock
+		for _, h := range fn.Blocks {
+			if len(path.NaturalLoop(h)) > 0 {
+				heads = append(heads, h)
+			}
+		}
+		if len(heads) == 0 {
+			continue
+		}
+		for _, b := range fn.Blocks {
+			rt, ok := b.Instrs[len(b.Instrs)-1].(*ssa.Return)
+			if !ok || b == fn.Recover {
+				continue
+			}
+			behind := false
+			for _, h := range heads {
+				if h == b || h.Dominates(b) || path.NaturalLoop(h)[b] {
+					behind = true
+				}
+			}
+			rv := path.ReturnValues(rt)
+			isErr := false
+			if n := len(rv); n > 0 && types.Identical(rv[n-1].Type(), errType) && !path.IsNil(rv[n-1]) {
+				isErr = true
+			}
+			okR := behind || isErr || guardedByEmptyInput(fn, b)
+			if !okR {
+				// a return several paths merge into (`if len(s) > 0 { scan }; return acc`):
+				// walking backwards, every way in comes out of a scan or through an edge
+				// that only an empty input takes
+				seen := map[*ssa.BasicBlock]bool{}
+				var back func(x *ssa.BasicBlock) bool
+				back = func(x *ssa.BasicBlock) bool {
+					for _, h := range heads {
+						if h == x || h.Dominates(x) || path.NaturalLoop(h)[x] {
+							return true
+						}
+					}
+					if seen[x] {
+						return true
+					}
+					seen[x] = true
+					if len(x.Preds) == 0 {
+						return false
+					}
+					for _, pr := range x.Preds {
+						if emptyInputEdge(fn, pr, x) {
+							continue
+						}
+						if !back(pr) {
+							return false
+						}
+					}
+					return true
+				}
+				okR = back(b)
+			}
+			c.ob("PT5", name, "no answer in front of the scan", c.p.InstrPos(rt), okR, "a return is reachable that no scan of the input dominates, that reports no error and that is not guarded by an empty-input test: some inputs are answered without being looked at")
+		}
+	}
+}
